@@ -14,6 +14,8 @@ pub struct AstInfo {
     /// contains a construct whose "character" count is ambiguous (byte escapes >= 0x80 outside
     /// unicode mode, empty classes)
     pub fuzzy: bool,
+    /// contains a bracketed class built with set operations (`&&`, `--`, `~~`), which may denote the empty set
+    pub maybe_empty_class: bool,
 }
 
 pub fn ast_info(pattern: &str) -> Result<AstInfo, String> {
@@ -50,9 +52,10 @@ fn walk(ast: &Ast, info: &mut AstInfo) -> usize {
         }
         Ast::ClassUnicode(_) | Ast::ClassPerl(_) => 1,
         Ast::ClassBracketed(c) => {
-            // intersections / differences may produce an empty class: mark fuzzy
+            // intersections / differences may produce an empty class: the structural rule still counts it as one
+            // class, but no match traverses it, so the semantic reading (shortest match) can be larger
             if !matches!(c.kind, ast::ClassSet::Item(_)) {
-                info.fuzzy = true;
+                info.maybe_empty_class = true;
             }
             1
         }
